@@ -52,7 +52,9 @@ Inductive change :=
 Inductive eref := RNode (id : N) | REdge (id : N).    (* an entity value in a result row *)
 Inductive channel := Resp | Http.
 
-Record stmt := { s_chan : channel; s_delta : list change; s_returned : list eref }.
+(* s_write: routed to execute_mut (statement_is_write); a read goes to the read-only executor and
+   nothing is persisted for it, whatever it returns *)
+Record stmt := { s_chan : channel; s_write : bool; s_delta : list change; s_returned : list eref }.
 
 Definition apply_change (g : graph) (c : change) : graph :=
   match c with
@@ -81,7 +83,7 @@ Definition persist_ref (served : graph) (st : graph) (r : eref) : graph :=
 Definition persisted_effect (served_after : graph) (st : graph) (s : stmt) : graph :=
   match s_chan s with
   | Http => st                                                   (* query_handler: nothing *)
-  | Resp => fold_left (persist_ref served_after) (s_returned s) st
+  | Resp => if s_write s then fold_left (persist_ref served_after) (s_returned s) st else st
   end.
 
 (* (served graph, storage) after a history of acknowledged statements *)
@@ -140,8 +142,10 @@ Definition change_ok (g : graph) (c : change) : bool :=
   | PutEdge _ x => has_node (c_src x) (g_nodes g) && has_node (c_dst x) (g_nodes g)
   | _ => true
   end.
+(* ... and the read-only executor changes nothing *)
 Definition stmt_ok (g : graph) (s : stmt) : bool :=
-  let g' := ack_effect g s in forallb (change_ok g') (s_delta s).
+  let g' := ack_effect g s in
+  forallb (change_ok g') (s_delta s) && (s_write s || match s_delta s with [] => true | _ => false end).
 
 Fixpoint history_ok (g : graph) (h : list stmt) : bool :=
   match h with
